@@ -354,7 +354,10 @@ pub fn run() {
         init,
         depth,
         if quick { 3_000_000 } else { 40_000_000 },
-        |n: &Node| (n.r.key(), n.bad),
+        // the key is the reference state AND the real board (derived Debug shows every field, also ones
+        // added later): two paths that agree on everything observable but leave the implementation in
+        // different hidden states are both expanded
+        |n: &Node| (n.r.key(), mc::fnv(format!("{:?}", n.b.board()).as_bytes()), n.bad),
         |n, _d| {
             if n.bad {
                 return vec![];
